@@ -49,14 +49,10 @@ StJsonClean(j) ==
 \* Known deviation "RepeatedFluentArg": a fluent whose argument list repeats an
 \* object loses the repetition when it goes through grounding or the trajectory
 \* parser ((h o5 o5) comes back as (h o5)).  Dedup keeps first occurrences.
-RECURSIVE DedupSeq(_, _)
-DedupSeq(a, seen) ==
-  IF a = <<>> THEN <<>>
-  ELSE IF a[1] \in seen THEN DedupSeq(Tail(a), seen) ELSE <<a[1]>> \o DedupSeq(Tail(a), seen \cup {a[1]})
 CollapseFl(s) ==
   [facts |-> s.facts,
-   fl |-> [g \in {<<k[1], DedupSeq(k[2], {})>> : k \in DOMAIN s.fl} |->
-             s.fl[CHOOSE k \in DOMAIN s.fl : <<k[1], DedupSeq(k[2], {})>> = g]]]
+   fl |-> [g \in {<<k[1], DedupArgs(k[2])>> : k \in DOMAIN s.fl} |->
+             s.fl[CHOOSE k \in DOMAIN s.fl : <<k[1], DedupArgs(k[2])>> = g]]]
 StEqD(a, b, dv) == IF "RepeatedFluentArg" \in dv THEN StEq(a, CollapseFl(b)) ELSE StEq(a, b)
 
 ObsOf(e) == IF Has(e.out, "exc") THEN [exc |-> TRUE] ELSE [exc |-> FALSE]
@@ -288,6 +284,37 @@ JExportProblem(e, st) ==
            ELSE Ok(st)
 
 ----------------------------------------------------------------------------
+(* Grounding (C20) *)
+
+LitOfJson(j) == [pos |-> j[1], p |-> j[2], a |-> j[3], ty |-> j[4]]
+NumOfJson(tr) ==    \* (op (f args) expr) as a token tree
+  [op |-> HeadSym(tr), t |-> ExprOfTree(tr.c[2]), e |-> ExprOfTree(tr.c[3])]
+GroupOfJson(g) == [adds |-> {LitOfJson(x) : x \in Range(g.adds)}, dels |-> {LitOfJson(x) : x \in Range(g.dels)},
+                   nums |-> {NumOfJson(x) : x \in Range(g.nums)}]
+
+JGround(e, st) ==
+  LET D == st[e.d].D
+      a == ActionNamed(D, e.act)
+      env == EnvOfCall(a, e.args)
+      u == st[e.u].u
+      adm(dv) ==
+        LET dd == "RepeatedFluentArg" \in dv IN
+        /\ ~Has(e.out, "exc")
+        /\ {LitOfJson(x) : x \in Range(e.out.pre_lits)} = {GroundLit(D, a, env, lt) : lt \in LitsOfF(a.pre)}
+        /\ {FormulaOfTree(x) : x \in Range(e.out.pre_nums)}
+              = {[c EXCEPT !.l = GroundExpr(c.l, env, dd), !.r = GroundExpr(c.r, env, dd)] : c \in CmpsOfF(a.pre)}
+        \* effect groups: the unconditional one and one per `when'
+        /\ {GroupOfJson(g) : g \in Range(e.out.groups)}
+              = {GroundGroup(D, a, env, UncondSeq(a.eff), dd)}
+                \cup {GroundGroup(D, a, env, a.eff[i].es, dd) : i \in {j \in DOMAIN a.eff : a.eff[j].k = "when"}}
+        /\ Len(e.out.groups) = 1 + Cardinality({j \in DOMAIN a.eff : a.eff[j].k = "when"})
+        \* typed call: every argument with the declared type of that object / constant
+        /\ e.out.call[1] = e.act
+        /\ e.out.call[2] = [i \in DOMAIN e.args |-> <<e.args[i], TypeOfArg(D, u, e.args[i])>>]
+  IN  IF ~HasAction(D, e.act) \/ ~SupAction(a, CtxOf(D)) THEN Ok(st)
+      ELSE WithDevs(adm, "Ground", st)
+
+----------------------------------------------------------------------------
 (* states as values, operators as objects *)
 
 JCopyState(e, st) ==
@@ -337,6 +364,7 @@ Judge(e, st) ==
     [] e.c = "RunPlan"      -> JRunPlan(e, st)
     [] e.c = "ExportTrajectory" -> JExportTrajectory(e, st)
     [] e.c = "ParseTrajectory"  -> JParseTrajectory(e, st)
+    [] e.c = "Ground"       -> JGround(e, st)
     [] e.c = "ExportDomain" -> JExportDomain(e, st)
     [] e.c = "ExportProblem" -> JExportProblem(e, st)
     [] e.c = "CopyState"    -> JCopyState(e, st)
@@ -353,6 +381,11 @@ Explain(e, st) ==
   CASE e.c = "IsApplicable" -> IsApplicable_Exp(st[e.d].D, st[e.u].u, e.act, e.args, st[e.s].st, {})
     [] e.c = "Apply" -> Apply_Exp(st[e.d].D, st[e.u].u, e.act, e.args, st[e.s].st, e.allow, e.skip, {})
     [] e.c = "ParseDomain" -> ParseDomain_Exp(e.tree)
+    [] e.c = "Ground" -> LET a == ActionNamed(st[e.d].D, e.act) env == EnvOfCall(a, e.args) IN
+         [lits |-> {GroundLit(st[e.d].D, a, env, lt) : lt \in LitsOfF(a.pre)},
+          nums |-> {[c EXCEPT !.l = GroundExpr(c.l, env, FALSE), !.r = GroundExpr(c.r, env, FALSE)] : c \in CmpsOfF(a.pre)},
+          groups |-> {GroundGroup(st[e.d].D, a, env, UncondSeq(a.eff), FALSE)}
+                \cup {GroundGroup(st[e.d].D, a, env, a.eff[i].es, FALSE) : i \in {j \in DOMAIN a.eff : a.eff[j].k = "when"}}]
     [] e.c = "RunPlan" -> RunPlan_Exp(st[e.d].D, st[e.p].u, [i \in DOMAIN e.plan |-> CallOfJson(e.plan[i])],
                                       [facts |-> st[e.p].P.init.facts, fl |-> st[e.p].P.init.fl], e.allow, {})
     [] e.c = "ApplyOp" -> Apply_Exp(st[st[e.op].d].D, st[st[e.op].u].u, st[e.op].act, st[e.op].args, st[e.s].st, e.allow, e.skip, {})
